@@ -191,8 +191,18 @@ class SegStr:
             return None
         return best
 
-    def strip(self, mode='strip', chars=None):
+    def strip(self, mode='strip', chars=None, strict=False):
         segs = list(self.segs)
+
+        def may_start_blank(f):
+            # a number printed with the blank sign flag or padded to a width starts with a blank for some values
+            sp = (f.spec or '').lstrip('%')
+            return f.cls == 'num' and (sp.startswith(' ') or bool(re.match(r'^[<>^]?[ +]?\d', sp)) and
+                                       not sp.startswith(('<', '0')))
+        if strict and (chars is None or ' ' in chars):
+            if mode in ('strip', 'lstrip') and segs and segs[0].kind == 'field' and may_start_blank(segs[0]):
+                raise Unsupported('strip() at a formatted number whose first column is a blank for some values: %r'
+                                  % (segs[0].value,))
         if mode in ('strip', 'lstrip') and segs and segs[0].kind == 'lit':
             segs[0] = Seg('lit', text=segs[0].text.lstrip(chars))
         if mode in ('strip', 'rstrip') and segs and segs[-1].kind == 'lit':
